@@ -78,23 +78,37 @@ def optHashOut : Option Cell → String
   | none => "-"
   | some c => hashOut c
 
+/-- extra currencies: `-` or `id:amount+id:amount…` (ids as uint32) -/
+def extrasArg (s : String) : Option (List (Nat × Nat)) :=
+  if s == "-" then some []
+  else (s.splitOn "+").mapM fun it =>
+    match it.splitOn ":" with
+    | [a, b] => do
+      let a ← a.toNat?
+      let b ← b.toNat?
+      pure (a, b)
+    | _ => none
+
+def extrasOut (l : List (Nat × Nat)) : String :=
+  if l.isEmpty then "" else " x=" ++ "+".intercalate (l.map fun p => s!"{p.1}:{p.2}")
+
 def intMsgOut (m : IntMsg) : String :=
   let dest := match m.dest with
     | some (wc, a) => s!"{wc}:{hexOut (Tongo.Bits.bitsToBytes a)}"
     | none => "none"
   let b (x : Bool) := if x then "1" else "0"
-  s!"ok {b m.bounce} {dest} {m.amount} {b m.hasInit} {optHashOut m.init.code} {optHashOut m.init.data} {hashOut m.body}"
+  s!"ok {b m.bounce} {dest} {m.amount} {b m.hasInit} {optHashOut m.init.code} {optHashOut m.init.data} {hashOut m.body}" ++ extrasOut m.extra
 
 def opsC14 : List (String × Handler) := [
-  -- m.int <kind s|m|d> <amount> <wc> <addrhex> <bounce> <mode> <-commenthex> <body|-> <code|-> <data|->
+  -- m.int <kind s|m|d> <amount> <wc> <addrhex> <bounce> <mode> <-commenthex> <body|-> <code|-> <data|-> <extras|->
   --   ToInternal + tlb.Marshal of SimpleTransfer / Message / ContractDeploy: "ok <mode> <canonical internal message>"
   ("m.int", fun
-    | [kind, amount, wc, addr, bounce, mode, comment, body, code, data] =>
-      match amount.toNat?, wc.toInt?, hexArg addr, mode.toNat?, commentArg comment, optCellArg body, optCellArg code, optCellArg data with
-      | some amount, some wc, some addr, some mode, some comment, some body, some code, some data =>
+    | [kind, amount, wc, addr, bounce, mode, comment, body, code, data, extras] =>
+      match amount.toNat?, wc.toInt?, hexArg addr, mode.toNat?, commentArg comment, optCellArg body, optCellArg code, optCellArg data, extrasArg extras with
+      | some amount, some wc, some addr, some mode, some comment, some body, some code, some data, some extras =>
         let dest : Address := { workchain := wc, hash := addr }
         let m : Outcome OutMsg :=
-          if kind == "s" then .ok (simpleTransfer amount dest comment (bounce == "1"))
+          if kind == "s" then .ok (simpleTransfer amount dest comment (bounce == "1") extras)
           else if kind == "m" then
             .ok { bounce := bounce == "1", dest := dest, amount := amount, body := body, code := code, data := data, mode := mode }
           else if kind == "d" then contractDeploy sha256 wc code data body amount
@@ -103,7 +117,7 @@ def opsC14 : List (String × Handler) := [
         | .ok (mode, c) => s!"ok {mode} {cellOut c}"
         | .err _ => "err"
         | .panic _ => "panic"
-      | _, _, _, _, _, _, _, _ => "bad-op"
+      | _, _, _, _, _, _, _, _, _ => "bad-op"
     | _ => "bad-op"),
   -- m.intdec <msg>    tlb.Unmarshal of an internal message: bounce, destination, amount, init (code hash, data hash), body hash
   ("m.intdec", fun
